@@ -196,6 +196,8 @@ impl<'a> WireFormat<'a> for Name<'a> {
             match data[pointer_position] {
                 0 => {
                     *position += 1;
+                    #[cfg(simple_dns_verif)]
+                    crate::dns::verif::record(3, *position, pointer_position, name_size);
                     break;
                 }
                 len if len & POINTER_MASK == POINTER_MASK => {
@@ -221,6 +223,8 @@ impl<'a> WireFormat<'a> for Name<'a> {
                         return Err(crate::SimpleDnsError::InvalidDnsPacket);
                     }
                     pointer_position = pointer;
+                    #[cfg(simple_dns_verif)]
+                    crate::dns::verif::record(2, *position, pointer_position, name_size);
                 }
                 len => {
                     name_size += 1 + len as usize;
@@ -242,6 +246,8 @@ impl<'a> WireFormat<'a> for Name<'a> {
                         *position += len as usize + 1;
                     }
                     pointer_position += len as usize + 1;
+                    #[cfg(simple_dns_verif)]
+                    crate::dns::verif::record(1, *position, pointer_position, name_size);
                 }
             }
         }
